@@ -38,7 +38,8 @@ def findDef (lines : Array (List String)) (nm : String) : Option Nat :=
     | kind :: n :: _ => n == nm && kind ∈ ["data", "bss", "ref", "expr", "lref", "func", "efunc", "lfunc"]
     | _ => false
 
-def mkItem (lines : Array (List String)) (toks : List String) : Except String Item :=
+/-- `lo` = global index of the first line of the module the item belongs to (targets are module-local) -/
+def mkItem (lines : Array (List String)) (lo : Nat) (toks : List String) : Except String Item :=
   match toks with
   | ["data", n, ty, nel, hex] =>
     match parseTy ty, nel.toNat? with
@@ -53,7 +54,7 @@ def mkItem (lines : Array (List String)) (toks : List String) : Except String It
         | some ("forward" :: nm :: _) => (findDef lines nm).getD k
         | some ("export" :: nm :: _) => (findDef lines nm).getD k
         | _ => k
-      .ok (.ref (optName n) tgt d)
+      .ok (.ref (optName n) (tgt - lo) d)
     | _, _ => .error "bad ref line"
   | ["expr", n, k] =>
     match k.toNat? with
@@ -63,6 +64,7 @@ def mkItem (lines : Array (List String)) (toks : List String) : Except String It
         match parseTy ty, v.toNat? with
         | some t, some v => .ok (.expr (optName n) t v)
         | _, _ => .error "bad efunc line"
+      | some ["afunc", _, _, _] => .ok (.expr (optName n) .p 0)   -- value = an address: printed as delta
       | _ => .error "expr does not refer to an efunc"
     | none => .error "bad expr line"
   | ["lref", n, _k, lab, lab2, disp] =>
@@ -70,7 +72,7 @@ def mkItem (lines : Array (List String)) (toks : List String) : Except String It
     | some l, some d => .ok (.lref (optName n) l (if lab2 == "-" then none else lab2.toNat?) d)
     | _, _ => .error "bad lref line"
   | kind :: _ =>
-    if kind ∈ ["import", "forward", "export", "proto", "func", "efunc", "lfunc"] then .ok .other
+    if kind ∈ ["import", "forward", "export", "proto", "func", "efunc", "lfunc", "afunc"] then .ok .other
     else .error s!"unknown line kind {kind}"
   | [] => .error "empty line"
 
@@ -85,35 +87,64 @@ def decodeLE (cs : List Cell) : Option Nat :=
 
 def toSigned64 (v : Nat) : Int := if v < 2 ^ 63 then (v : Int) else (v : Int) - (2 ^ 64 : Int)
 
-def runCase (id : String) (lines : Array (List String)) : List String := Id.run do
+/-- displacement of the address function an `expr` line refers to, if it refers to one -/
+def afuncDisp (lines : Array (List String)) (toks : List String) : Option Int :=
+  match toks with
+  | ["expr", _, k] =>
+    match k.toNat? with
+    | some k => match lines[k]? with
+      | some ["afunc", _, _, d] => d.toInt?
+      | _ => none
+    | none => none
+  | _ => none
+
+def payloadOf (lines : Array (List String)) (toks : List String) (it : Item)
+    (pl : List (Option Placement)) (cells : List Cell) : String :=
+  match it, afuncDisp lines toks with
+  | _, some d => s!"delta={d}"
+  | .ref _ tgt _, _ =>
+    match decodeLE cells with
+    | some v => s!"delta={toSigned64 ((v + 2 ^ 64 - addrOf env pl tgt % 2 ^ 64) % 2 ^ 64)}"
+    | none => "delta=undef"
+  | .lref .., _ => "lref=ok"
+  | _, _ => s!"bytes={cellsHex cells}"
+
+/-- one module = the lines `lo ≤ i < hi` of the case -/
+def runModule (lines : Array (List String)) (lo hi : Nat) : Except String (List String) := do
+  let mine := (lines.toList.drop lo).take (hi - lo)
   let mut items : List Item := []
-  for toks in lines.toList do
-    match mkItem lines toks with
-    | .ok it => items := items ++ [it]
-    | .error e => return [s!"case {id}", s!"error {e}", "end"]
+  for toks in mine do
+    let it ← mkItem lines lo toks
+    items := items ++ [it]
   let r := load items
   let g := link env items
-  let mut out : List String := [s!"case {id}"]
+  let mut out : List String := []
   let mut pos := 0
-  for (it, p) in items.zip r.pl do
+  for ((it, p), toks) in (items.zip r.pl).zip mine do
     match p with
     | none => out := out ++ [s!"other {pos}"]
     | some p =>
       let sz := it.plSize
       let cells := (List.range sz).map fun k => g p.sec (p.off + k)
-      let payload :=
-        match it with
-        | .ref _ tgt _ =>
-          match decodeLE cells with
-          | some v => s!"delta={toSigned64 ((v + 2 ^ 64 - addrOf env r.pl tgt % 2 ^ 64) % 2 ^ 64)}"
-          | none => "delta=undef"
-        | .lref .. => "lref=ok"
-        | _ => s!"bytes={cellsHex cells}"
+      let payload := payloadOf lines toks it r.pl cells
       out := out ++ [s!"item {pos} {kindOf it} sec={p.sec} off={p.off} size={sz} {payload}"]
     pos := pos + 1
   for s in r.secs do
     out := out ++ [s!"sec {s.head} size={s.size}"]
-  return out ++ ["end"]
+  return out
+
+def runCase (id : String) (lines : Array (List String)) : List String :=
+  let sep := (List.range lines.size).find? fun i => (lines[i]!).head? == some "module"
+  let res : Except String (List String) := do
+    match sep with
+    | none => runModule lines 0 lines.size
+    | some k =>
+      let a ← runModule lines 0 k
+      let b ← runModule lines (k + 1) lines.size
+      pure (a ++ ["module"] ++ b)
+  match res with
+  | .ok out => [s!"case {id}"] ++ out ++ ["end"]
+  | .error e => [s!"case {id}", s!"error {e}", "end"]
 
 partial def loop (h : IO.FS.Stream) (cur : Option (String × Array (List String))) : IO Unit := do
   let line ← h.getLine
